@@ -30,6 +30,44 @@ type c01run[V any] struct {
 	hist    []string
 	mutated bool
 	failed  bool
+	watched []watch[V]
+}
+
+// watch is a sequence that crossed the API earlier (an operand, a constructor
+// argument, a returned range) and must never change afterwards.
+type watch[V any] struct {
+	seq   col.Sequential[V]
+	vals  []V
+	label string
+}
+
+func (r *c01run[V]) watch(seq col.Sequential[V], vals []V, label string) {
+	if seq == nil || SameRef(seq, r.real) {
+		return
+	}
+	if len(r.watched) >= 8 {
+		r.watched = r.watched[1:]
+	}
+	r.watched = append(r.watched, watch[V]{seq, Clone(vals), label})
+}
+
+func (r *c01run[V]) checkWatched(after string) {
+	for _, w := range r.watched {
+		if r.failed {
+			return
+		}
+		var got []V
+		pan, _, _ := Try(func() {
+			if sp, ok := w.seq.(*Spy[V]); ok {
+				got = sp.Vals
+			} else {
+				got = w.seq.AsArray()
+			}
+		})
+		if pan || !SameAll(r.d, got, w.vals) {
+			r.fail(after+"/aliased/"+w.label, "after %s: a sequence that crossed the API earlier (%s) changed: now %s, was %s", after, w.label, StrAll(r.d, got), StrAll(r.d, w.vals))
+		}
+	}
 }
 
 func (r *c01run[V]) log(format string, a ...any) { r.hist = append(r.hist, fmt.Sprintf(format, a...)) }
@@ -180,6 +218,7 @@ func (r *c01run[V]) checkOperand(name string, o operand[V]) {
 	if r.failed || o.kind == "self" {
 		return
 	}
+	defer r.watch(o.seq, o.vals, "operand of "+name)
 	pan, _, _ := Try(func() {
 		var got []V
 		if o.spy != nil {
@@ -295,6 +334,7 @@ func (r *c01run[V]) step(rng *core.Rng) {
 			if pan || !SameAll(r.d, arr, want) {
 				r.fail(name+"/wrong-values", "%s(%d,%d) returned %s %s, model %s", op, f, l, StrAll(r.d, arr), msg, StrAll(r.d, want))
 			}
+			r.watch(got, want, "result of "+op)
 			if op == "RemoveValues" && len(want) > 0 {
 				r.model = append(Clone(r.model[:pf-1]), r.model[pl:]...)
 				r.mutated = true
@@ -560,6 +600,7 @@ func (r *c01run[V]) step(rng *core.Rng) {
 	} else {
 		r.observe(name)
 	}
+	r.checkWatched(name)
 	saveModel := r.model
 	r.model = before
 	r.distinct(op, argClass, returned)
@@ -593,7 +634,9 @@ func (r *c01run[V]) construct(rng *core.Rng) bool {
 				r.model = Clone(vs)
 			case 3:
 				r.log("Array.MakeFromSequence(list %s)", StrAll(r.d, vs))
-				r.real = A.MakeFromSequence(col.List[V](Notation).MakeFromArray(vs))
+				src := col.List[V](Notation).MakeFromArray(vs)
+				r.real = A.MakeFromSequence(src)
+				r.watch(src, vs, "constructor argument")
 				r.model = Clone(vs)
 			default:
 				r.log("Array.MakeFromSequence(spy %s)", StrAll(r.d, vs))
@@ -614,7 +657,9 @@ func (r *c01run[V]) construct(rng *core.Rng) bool {
 			r.model = Clone(vs)
 		case 2:
 			r.log("List.MakeFromSequence(array %s)", StrAll(r.d, vs))
-			r.list = L.MakeFromSequence(col.Array[V](Notation).MakeFromArray(vs))
+			src := col.Array[V](Notation).MakeFromArray(vs)
+			r.list = L.MakeFromSequence(src)
+			r.watch(src, vs, "constructor argument")
 			r.model = Clone(vs)
 		case 3:
 			r.log("List.MakeFromSequence(spy %s)", StrAll(r.d, vs))
@@ -636,6 +681,10 @@ func (r *c01run[V]) construct(rng *core.Rng) bool {
 			// operands must be left alone
 			if !SameAll(r.d, a.AsArray(), vs[:k]) || !SameAll(r.d, b.AsArray(), vs[k:]) {
 				ok = false
+			}
+			r.watch(a, vs[:k], "operand of Concatenate")
+			if !alias {
+				r.watch(b, vs[k:], "operand of Concatenate")
 			}
 		}
 		r.real = r.list
